@@ -64,7 +64,7 @@ def sweep_fill(ctx):
     ai = R.defs(fill, 'atomindex')
     ctx.ob('SWEEP-FILL', loc, 'ghost atoms are appended to both the bin-index table and the atom-index list (same number of definitions reach the fill)', len(ai) == len(d_fill),
            'atomindex defs %d, %s defs %d' % (len(ai), table, len(d_fill)), node=fill)
-    sweeploops = [l for l in _loops(fn) if norm(l.iter).replace(' ', '') == 'range(len(%s))' % sweepname]
+    sweeploops = [l for l in _loops(fn) if norm(l.iter).replace(' ', '') in ('range(len(%s))' % sweepname, 'range(%s.shape[0])' % sweepname)]
     ctx.need(len(sweeploops) == 1, 'nlist: the sweep loop over %s was not found' % sweepname)
     return fn, fill, sweeploops[0], sweepname
 
@@ -72,9 +72,21 @@ def sweep_fill(ctx):
 def stencil(ctx):
     fn, fill, sweep, sweepname = sweep_fill_ctx(ctx)
     loc = NL + '::nlist'
-    un = [s for s in sweep.body if isinstance(s, ast.Assign) and isinstance(s.targets[0], ast.Tuple) and norm(s.value) == '%s[%s]' % (sweepname, norm(sweep.target))]
-    fu = [s for s in fill.body if isinstance(s, ast.Assign) and isinstance(s.targets[0], ast.Tuple)]
-    ok = len(un) == 1 and len(fu) == 1 and norm(un[0].targets[0]) == norm(fu[0].targets[0]) == '(x, y, z)'
+    def columns(loop, table=None):
+        # names bound to columns 0, 1, 2 of the row of the loop: `x, y, z = T[i]` or `x = T[i, 0]; y = T[i, 1]; z = T[i, 2]`
+        row = norm(loop.target)
+        out = {}
+        for s_ in loop.body:
+            if not isinstance(s_, ast.Assign):
+                continue
+            t_, v_ = s_.targets[0], s_.value
+            if isinstance(t_, ast.Tuple) and isinstance(v_, ast.Subscript) and norm(v_.slice) == row and (table is None or norm(v_.value) == table) and all(isinstance(e_, ast.Name) for e_ in t_.elts):
+                return [e_.id for e_ in t_.elts]
+            if isinstance(t_, ast.Name) and isinstance(v_, ast.Subscript) and isinstance(v_.slice, ast.Tuple) and len(v_.slice.elts) == 2 and norm(v_.slice.elts[0]) == row \
+                    and isinstance(v_.slice.elts[1], ast.Constant) and (table is None or norm(v_.value) == table):
+                out[v_.slice.elts[1].value] = t_.id
+        return [out.get(k) for k in range(3)] if out else None
+    ok = columns(sweep, sweepname) == ['x', 'y', 'z'] and columns(fill) == ['x', 'y', 'z']
     ctx.ob('STENCIL', loc, 'bin coordinates are unpacked in the same order (x, y, z) in the fill and the sweep', ok, node=sweep)
     dl = {v: _loops(sweep, v) for v in ('dx', 'dy', 'dz')}
     ok = all(len(dl[v]) == 1 and norm(dl[v][0].iter).replace(' ', '') == 'range(-1,2)' for v in dl)
@@ -131,10 +143,48 @@ def sweep_fill_ctx(ctx):
         table = norm(sweeps[0].value.args[0])
         sweepname = norm(sweeps[0].targets[0])
         fills = [l for l in _loops(fn) if any(isinstance(s, ast.Assign) and norm(s.value) == '%s[%s]' % (table, norm(l.target)) for s in l.body)]
-        sweeploops = [l for l in _loops(fn) if norm(l.iter).replace(' ', '') == 'range(len(%s))' % sweepname]
+        sweeploops = [l for l in _loops(fn) if norm(l.iter).replace(' ', '') in ('range(len(%s))' % sweepname, 'range(%s.shape[0])' % sweepname)]
         ctx.need(len(fills) == 1 and len(sweeploops) == 1, 'nlist: fill/sweep loops not found')
         _cache['sf'] = (ctx, fn, fills[0], sweeploops[0], sweepname)
     return _cache['sf'][1:]
+
+
+def head_env(ctx):
+    """the set-up block of nlist() (every top-level statement before the first loop) interpreted on a model system: what each local is bound to, however the block
+    spells it (aliases, tuple assignments, merged declarations)"""
+    if 'head' in _cache and _cache['head'][0] is ctx:
+        return _cache['head'][1]
+    import numpy as np
+    from ..symx import symarray
+    fn = ctx.fn(NL, 'nlist')
+
+    class Bx(PyStub):
+        vects = symarray('v', (3, 3), real=True)
+        origin = symarray('o', (3,), real=True)
+
+    class At(PyStub):
+        pos = symarray('p', (4, 3), real=True)
+
+    class Sy(PyStub):
+        box, atoms = Bx(), At()
+        pbc = (sp.Symbol('PBC_A'), sp.Symbol('PBC_B'), sp.Symbol('PBC_C'))
+        natoms = 4
+    sysm = Sy()
+    ev = SymEval(module_aliases(ctx.mod(NL)))
+    paths = [Path({'system': sysm, 'cutoff': sp.Symbol('cutoff', positive=True), 'initialsize': sp.Integer(20), 'deltasize': sp.Integer(10)})]
+    for st in fn.body:
+        if isinstance(st, (ast.For, ast.While)):
+            break
+        try:
+            nxt = ev.block([st], paths)
+            if len(nxt) == 1 and nxt[0].done is None:
+                paths = nxt
+        except Opaque:
+            continue          # a statement outside the vocabulary binds nothing the obligations ask about (they fail closed on a missing name)
+    env = dict(paths[0].env)
+    env['__system__'] = sysm
+    _cache['head'] = (ctx, env)
+    return env
 
 
 def geometry(ctx):
@@ -229,8 +279,10 @@ def geometry(ctx):
         ctx.ob('GEOMETRY', loc, 'images along a direction are {-1,0,1} iff that direction is periodic (%s), else {0}' % flag, ok, node=ifs[0] if ifs else fn, key='range ' + flag)
     gl = {v: [l for l in _loops(fn, v) if norm(l.iter).replace(' ', '') == 'range(%sl,%sh)' % (v, v)] for v in 'xyz'}
     ctx.ob('GEOMETRY', loc, 'the ghost loops run over those ranges', all(len(gl[v]) == 1 for v in 'xyz'), node=fn)
-    flags = {nm: norm(assigns_to(fn, nm)[0].value) if assigns_to(fn, nm) else None for nm in ('pbc_a', 'pbc_b', 'pbc_c')}
-    ctx.ob('GEOMETRY', loc, 'the periodic flags are the system\'s, in order', flags == {'pbc_a': 'system.pbc[0]', 'pbc_b': 'system.pbc[1]', 'pbc_c': 'system.pbc[2]'}, str(flags), node=fn)
+    henv = head_env(ctx)
+    sysm = henv['__system__']
+    flags = [henv.get(nm) for nm in ('pbc_a', 'pbc_b', 'pbc_c')]
+    ctx.ob('GEOMETRY', loc, 'the periodic flags are the system\'s, in order', flags == list(sysm.pbc), str(flags), node=fn)
     # digitize: same bin edges for real and ghost atoms, -1 offset
     dg = [s for s in ast.walk(fn) if isinstance(s, ast.Assign) and isinstance(s.value, ast.BinOp) and isinstance(s.value.left, ast.Call) and norm(s.value.left.func) == 'np.digitize']
     ok = len(dg) == 6
@@ -256,8 +308,8 @@ def membership(ctx):
     ctx.ob('MEMBERSHIP', loc, 'distances are periodic distances under the system\'s vectors and flags (in order)', ok, norm(dc[0]) if dc else '', node=dc[0] if dc else sweep)
     imp = [n for n in ctx.mod(NL).body if isinstance(n, ast.ImportFrom) and any(a.name == 'dmag2_c' for a in n.names)]
     ctx.ob('MEMBERSHIP', loc, 'dmag2_c is the kernel of C02 (imported from .dmag)', len(imp) == 1 and imp[0].module == 'dmag', node=imp[0] if imp else fn)
-    vs = assigns_to(fn, 'vects')
-    ctx.ob('MEMBERSHIP', loc, 'the vectors are the system\'s cell vectors', len(vs) == 1 and norm(vs[0].value) == 'system.box.vects', node=fn)
+    henv = head_env(ctx)
+    ctx.ob('MEMBERSHIP', loc, 'the vectors are the system\'s cell vectors', henv.get('vects') is henv['__system__'].box.vects, node=fn)
     up = [s for s in ast.walk(sweep) if isinstance(s, ast.Assign) and norm(s.targets[0]) in ('upos[w, j]', 'vpos[w, j]')]
     want = {'upos[w, j]': 'posv[uindex, j]', 'vpos[w, j]': 'posv[vindex, j]'}
     ctx.ob('MEMBERSHIP', loc, 'compared positions are those of the two atoms (real positions; the periodic distance takes care of images)',
@@ -512,6 +564,11 @@ def buffer_types(ctx):
     for s in ast.walk(fn):
         if isinstance(s, ast.Assign) and getattr(s, '_ctype', None) in ('memoryview', 'const memoryview') and getattr(s, '_cbase', None) == 'double' and isinstance(s.value, ast.Attribute):
             path = norm(s.value)
+            base = s.value.value
+            if isinstance(base, ast.Name):          # a local alias of the cell: box = system.box
+                al = [a_ for a_ in fn.body if isinstance(a_, ast.Assign) and len(a_.targets) == 1 and isinstance(a_.targets[0], ast.Name) and a_.targets[0].id == base.id]
+                if len(al) == 1:
+                    path = '%s.%s' % (norm(al[0].value), s.value.attr)
             if not path.startswith('system.box.'):
                 continue
             n += 1
